@@ -14,6 +14,7 @@ import (
 	"fmt"
 	"os"
 	"runtime"
+	"runtime/debug"
 	"time"
 
 	"verif/sim/common"
@@ -182,6 +183,12 @@ func Main(isSQLi func(string) (bool, string), isXSS func(string) bool, globals f
 		return common.EncXSS(isXSS(in)), ""
 	}
 	w.sim = simrt.NewSim(exec)
+	if ses.Mode != "cover" {
+		// garbage collector seam: off, except where the scheduler forces a collection
+		debug.SetGCPercent(-1)
+		debug.SetMemoryLimit(3 << 30)
+		simrt.GCFunc = runtime.GC
+	}
 
 	start := time.Now()
 	var before []uint64
@@ -251,6 +258,8 @@ func (w *worker) runSession() {
 		w.modeFamily()
 	case "repeat":
 		w.modeRepeat()
+	case "longpairs":
+		w.modeLongPairs()
 	case "rand":
 		for i := 0; i < s.Runs && !w.stop; i++ {
 			seed := simrt.Mix(s.Seed, uint64(s.Worker), uint64(i))
@@ -603,7 +612,11 @@ func (w *worker) modeHist() {
 			calls = append(calls, simrt.Call{API: api, Idx: r, Input: w.c.In[r]}, simrt.Call{API: api, Idx: p, Input: w.c.In[p]})
 			est += w.c.Steps[api][r] + w.c.Steps[api][p]
 		}
-		spec := &simrt.RunSpec{Seed: uint64(a), Tasks: [][]simrt.Call{calls}, Policy: simrt.Policy{Kind: "seq", PoolMode: "lifo"}, Est: est + 64}
+		pol := simrt.Policy{Kind: "seq", PoolMode: "lifo"}
+		if (a/pairsPerRun)%2 == 1 {
+			pol.GCP = 0.02 // every other batch: the garbage of earlier calls is collected between calls
+		}
+		spec := &simrt.RunSpec{Seed: uint64(a), Tasks: [][]simrt.Call{calls}, Policy: pol, Est: est + 64}
 		w.execRun(spec, nil, false)
 	}
 }
@@ -689,5 +702,43 @@ func (w *worker) modeRepeat() {
 			spec := &simrt.RunSpec{Seed: uint64(k)*2 + uint64(api), Tasks: [][]simrt.Call{calls}, Policy: simrt.Policy{Kind: "seq", PoolMode: "lifo"}, Est: est + 64}
 			w.execRun(spec, nil, false)
 		}
+	}
+}
+
+// LongList lists the corpus indices of the long inputs.
+func LongList(c *common.Corpus) []int32 {
+	var out []int32
+	for i, f := range c.Flags {
+		if f&common.FLong != 0 {
+			out = append(out, int32(i))
+		}
+	}
+	return out
+}
+
+// modeLongPairs: every ordered pair of long inputs, on each API, as a
+// two-call history of one task (code paths that only switch on above a length
+// threshold - worker pools, watchdogs, chunking - are only reached by these).
+// Index k in [From,To) enumerates L x L x {SQLi,XSS}.
+func (w *worker) modeLongPairs() {
+	ls := LongList(w.c)
+	L := len(ls)
+	if L == 0 {
+		return
+	}
+	for k := w.ses.From; k < w.ses.To && !w.stop; k++ {
+		api := uint8(k & 1)
+		q := k >> 1
+		a, b := ls[(q/L)%L], ls[q%L]
+		calls := []simrt.Call{{API: api, Idx: a, Input: w.c.In[a]}, {API: api, Idx: b, Input: w.c.In[b]}}
+		est := w.c.Steps[api][a] + w.c.Steps[api][b] + 2
+		pol := simrt.Policy{Kind: "seq", PoolMode: "lifo"}
+		if w.ses.SyncHeavy {
+			// the library reaches stubs (pools, goroutines, channels, timers): let its
+			// own goroutines interleave with the caller in a seeded way
+			pol = simrt.Policy{Kind: []string{"seq", "walk", "rr", "pct"}[k%4], P: 0.02, Quantum: 7, Depth: 3, PoolMode: "lifo", TimerP: 0.01}
+		}
+		spec := &simrt.RunSpec{Seed: simrt.Mix(w.ses.Seed, uint64(k), 5), Tasks: [][]simrt.Call{calls}, Policy: pol, Est: est + 64}
+		w.execRun(spec, nil, false)
 	}
 }
